@@ -322,6 +322,19 @@ def evalweb_scenario(rng, root, partial_rvalues=None):
         lines += ['class C2:', '    dd = 1', 'class B2:', '    b = C2()', 'class A2:', '    def __init__(self):',
                   '        self.x = self.y.a', '        self.x = B2()', '        self.y = self.x.b']
         reqs_expr += [('assist', 'm.A2().x.'), ('assist', 'm.A2().y.')]
+    if rng.random() < 0.75:
+        # a module-level object built through an instance METHOD, attributes then set on it: the module's
+        # attribute assignments may first be collected while the object's own definition is being evaluated
+        rep, bld = rng.choice([('Report', 'Builder'), ('Page', 'Maker'), ('Doc', 'Factory')])
+        at1, at2 = rng.sample(['title', 'author', 'stamp', 'owner'], 2)
+        lines += ['class %s:' % rep, '    def render(self):', '        pass',
+                  'class %s:' % bld, '    def build(self):', '        return %s()' % rep,
+                  '%s_obj = %s().build()' % (rep.lower(), bld), "%s_obj.%s = 'x'" % (rep.lower(), at1), "%s_obj.%s = 'y'" % (rep.lower(), at2)]
+        first = [('assist', 'm.%s_obj.' % rep.lower()), ('assist', 'm.%s().' % rep), ('location', 'm.%s_obj.%s' % (rep.lower(), at1))]
+        if rng.random() < 0.5:
+            reqs_expr = first + reqs_expr          # asked first on the Project in the forward order
+        else:
+            reqs_expr += first
     if rng.random() < 0.6:
         lines += ['class %s(%s):' % (t2, t1), '    def extra(self):', '        return make()', 'spare = %s().extra()' % t2, 'spare.mark = 2']
         reqs_expr += [('assist', 'm.%s().extra().' % t2), ('assist', 'm.spare.')]
@@ -360,7 +373,7 @@ def project_histories(ctx, nproj, nseq):
         if rc == 0:
             res = json.loads(out)
             if any(a != res['fresh'][i] for seq, ans in zip(k['sequences'], res['seq']) for i, a in zip(seq, ans)):
-                ctx.known_finding(k['id'], 'star-import ring of project modules: the answer depends on which module of the ring '
+                (ctx.known_finding if k['id'] in {f['id'] for f in ctx.open_findings()} else (lambda i, w: ctx.violation('%s: %s' % (i, w), {'kind': 'unregistered-finding', 'id': i})))(k['id'], 'star-import ring of project modules: the answer depends on which module of the ring '
                                   'was loaded first on the Project (input: corpus/C04/%s)' % kfn)
     jobs = []
     cdir = os.path.join(common.VERIF, 'corpus', 'C04')
